@@ -3,7 +3,7 @@
 Each line: {"property": "C18", "id": "...", "status": "known"|"fixed", "commit": null|sha,
             "what": "...", "signature": {"kind": "<violation kind>", "where": {field: value | [values]}}}
 
-A violation (kind, what, case) matches a `known` entry iff the kinds are equal and every key of
+A violation (kind, what, case) matches a `known` entry iff the kinds are equal (or the kind is one of the listed ones) and every key of
 signature.where is present in case["sig"] with an equal value (or a value contained in the listed
 alternatives).  `fixed` entries suppress nothing.
 """
@@ -32,7 +32,8 @@ def match(known, v):
     sig = (v.get("case") or {}).get("sig") or {}
     for k in known:
         s = k.get("signature") or {}
-        if s.get("kind") != v.get("kind"):
+        kinds = s.get("kind")
+        if (v.get("kind") not in kinds) if isinstance(kinds, list) else (kinds != v.get("kind")):
             continue
         ok = True
         for key, want in (s.get("where") or {}).items():
